@@ -25,6 +25,7 @@ type Entry struct {
 	TgIDs    []string `json:"-"`
 	Skip     bool     `json:"skip"`
 	Up       string   `json:"up"`
+	UpEntry  string   `json:"-"`
 	NParents int      `json:"np"`
 	Signed   bool     `json:"-"`
 }
@@ -73,6 +74,8 @@ func ScanEntry(msg string) Entry {
 			e.Skip = v == "true"
 		case "upstreamRepository":
 			e.Up = v
+		case "upstreamEntryID":
+			e.UpEntry = v
 		}
 	}
 	return e
